@@ -1,4 +1,4 @@
-CONSTANTS MaxTokens = 8  MaxNest = 2  OnlyValid = FALSE
+CONSTANTS MaxTokens = 8  MaxNest = 2  OnlyValid = FALSE  Small = FALSE
 SPECIFICATION Spec
 INVARIANTS AcceptHasType AcceptBalanced Emit EmitPrefix
 CHECK_DEADLOCK FALSE
